@@ -40,6 +40,7 @@ class Runner:
             self.node_classes |= set(idx.subclasses(b))
         self.sym_compare = sym_compare
         self.nodes = []
+        self.stubs = {}  # (object label, method name) -> value | callable(args) : summaries of operand methods for one run
 
     # ------------------------------------------------------------------ abstract values
     def pure(self, label, vt=None, cls="Pure", **fields):
@@ -69,6 +70,10 @@ class Runner:
         if isinstance(callee, OpaqueMethod):
             # setters of abstract nodes (bodies: Assignment.set_src/set_dest, Pure.set_value_type, GCCStmtDeclExpr.update_stmt)
             o, a = callee.obj, callee.attr
+            if (o.label, a) in self.stubs:
+                v = self.stubs[(o.label, a)]
+                interp.events.append(("call", callee.text, args, kwargs))
+                return v(args) if callable(v) else v
             setters = {"set_src": "src", "set_dest": "dest", "set_value_type": "value_type", "update_stmt": "stmt"}
             if a in setters and len(args) == 1:
                 interp.events.append(("setter", o, a, args[0]))
